@@ -78,6 +78,10 @@ type Base struct {
 	PreemptResource string
 	pointCount      int
 	pendingAtStart  int
+	// ResyncMode: after any activity, once the system is otherwise quiet, exactly one informer
+	// resync round happens (a system transition) before the state counts as quiescent.
+	ResyncMode    bool
+	ResyncPending bool
 	// FaultLog lists the injected faults of this history as features ("fault:update/jobs/status=conflict").
 	FaultLog []string
 	// StaticFeatures are scenario-level features (e.g. "foreign-pod").
@@ -179,7 +183,7 @@ func (b *Base) Now() time.Time { return b.Clock.Now() }
 func (b *Base) Offset() float64 { return b.Clock.Now().Sub(sim.Epoch).Seconds() }
 
 func (b *Base) IsSystem(a string) bool {
-	return strings.HasPrefix(a, "deliver:") || strings.HasPrefix(a, "work:")
+	return strings.HasPrefix(a, "deliver:") || strings.HasPrefix(a, "work:") || strings.HasPrefix(a, "listener:") || a == "resync"
 }
 
 func (b *Base) systemActions() []string {
@@ -190,12 +194,20 @@ func (b *Base) systemActions() []string {
 			out = append(out, "deliver:"+inf.Resource)
 		}
 	}
+	for _, inf := range b.Ctx.Set.All() {
+		for _, idx := range inf.LaggingListeners() {
+			out = append(out, fmt.Sprintf("listener:%s:%d", inf.Resource, idx))
+		}
+	}
 	if pending <= b.Budget.Lag {
 		for _, qn := range b.QueueNames {
 			for _, k := range b.Queues[qn].Ready() {
 				out = append(out, "work:"+qn+":"+k)
 			}
 		}
+	}
+	if len(out) == 0 && b.ResyncMode && b.ResyncPending {
+		out = append(out, "resync")
 	}
 	return out
 }
@@ -280,6 +292,20 @@ func (b *Base) Apply(action string) {
 			panic("deliver on empty FIFO: " + action)
 		}
 		b.calls = nil
+	case strings.HasPrefix(action, "listener:"):
+		parts := strings.Split(action, ":")
+		idx, _ := strconv.Atoi(parts[2])
+		b.API.BeginStep(nil)
+		if !b.Ctx.Set.ByResource(parts[1]).DeliverListener(idx) {
+			panic("listener without pending notification: " + action)
+		}
+		b.calls = nil
+	case action == "resync":
+		b.API.BeginStep(nil)
+		for _, inf := range b.Ctx.Set.All() {
+			inf.Resync()
+		}
+		b.calls = nil
 	case strings.HasPrefix(action, "work:"):
 		b.applyWork(action)
 	case action == "restart":
@@ -302,6 +328,15 @@ func (b *Base) Apply(action string) {
 		b.API.BeginStep(nil)
 		b.EnvApply(action)
 		b.calls = nil
+	}
+	// A resync round is owed after anything that changes the world: environment and clock
+	// steps, and syncs that issued API calls. Deliveries and the resync's own no-op syncs do
+	// not re-arm it (otherwise the round would repeat forever).
+	switch {
+	case action == "resync":
+		b.ResyncPending = false
+	case !b.IsSystem(action), strings.HasPrefix(action, "work:") && len(b.calls) > 0:
+		b.ResyncPending = true
 	}
 	if b.AfterStep != nil {
 		b.AfterStep(action)
@@ -522,6 +557,18 @@ func (b *Base) dump() keyDump {
 			pending[inf.Resource] = append(pending[inf.Resource], pend{id, string(ev.Type), raw})
 		}
 	}
+	for _, inf := range b.Ctx.Set.All() {
+		for _, idx := range inf.LaggingListeners() {
+			for _, n := range inf.ListenerPending(idx) {
+				raw, _ := json.Marshal(n.Obj)
+				note(inf.Resource+"/"+sim.ObjKey(n.Obj), raw)
+				if n.Old != nil {
+					oraw, _ := json.Marshal(n.Old)
+					note(inf.Resource+"/"+sim.ObjKey(n.Obj), oraw)
+				}
+			}
+		}
+	}
 	rank := func(id string, raw []byte) []byte {
 		m := rvRe.FindSubmatch(raw)
 		if m == nil {
@@ -548,6 +595,24 @@ func (b *Base) dump() keyDump {
 		for _, p := range list {
 			d.Pending[res] = append(d.Pending[res], p.typ+" "+string(rank(p.id, p.raw)))
 		}
+	}
+	for _, inf := range b.Ctx.Set.All() {
+		for _, idx := range inf.LaggingListeners() {
+			for _, n := range inf.ListenerPending(idx) {
+				raw, _ := json.Marshal(n.Obj)
+				id := inf.Resource + "/" + sim.ObjKey(n.Obj)
+				entry := string(n.Type) + " " + string(rank(id, raw))
+				if n.Old != nil {
+					oraw, _ := json.Marshal(n.Old)
+					entry += " old=" + string(rank(id, oraw))
+				}
+				name := fmt.Sprintf("listener/%s/%d", inf.Resource, idx)
+				d.Pending[name] = append(d.Pending[name], entry)
+			}
+		}
+	}
+	if b.ResyncMode && b.ResyncPending {
+		d.Pending["resync-pending"] = []string{"yes"}
 	}
 	for _, qn := range b.QueueNames {
 		q := b.Queues[qn]
@@ -582,6 +647,7 @@ type baseSnap struct {
 	queues   map[string]*sim.QueueSnapshot
 	faults   int
 	preempts int
+	resyncP  bool
 	faultLog []string
 	crashes  int
 	stale    map[string]bool
@@ -615,7 +681,7 @@ func (b *Base) Snapshot() interface{} {
 		clock: b.Now(), api: b.API.Snapshot(),
 		ctrl: map[string]*sim.InformerSnapshot{}, hook: map[string]*sim.InformerSnapshot{},
 		queues: map[string]*sim.QueueSnapshot{},
-		faults: b.FaultsUsed, faultLog: append([]string(nil), b.FaultLog...), crashes: b.CrashesUsed, preempts: b.PreemptsUsed, stale: map[string]bool{}, restarts: b.Restarts,
+		faults: b.FaultsUsed, faultLog: append([]string(nil), b.FaultLog...), crashes: b.CrashesUsed, preempts: b.PreemptsUsed, resyncP: b.ResyncPending, stale: map[string]bool{}, restarts: b.Restarts,
 	}
 	for _, inf := range b.Ctx.Set.All() {
 		s.ctrl[inf.Resource] = inf.Snapshot()
@@ -657,6 +723,7 @@ func (b *Base) Restore(x interface{}) {
 	b.FaultsUsed, b.CrashesUsed, b.Restarts = s.faults, s.crashes, s.restarts
 	b.FaultLog = append([]string(nil), s.faultLog...)
 	b.PreemptsUsed = s.preempts
+	b.ResyncPending = s.resyncP
 	b.StaleSeen = map[string]bool{}
 	for k := range s.stale {
 		b.StaleSeen[k] = true
